@@ -20,7 +20,7 @@ Theorem source_is_the_modelled_code :
    forall o, is_user o = Z.eqb (owner_code o) q_user /\
              is_user o = negb (Z.eqb (Z.land (owner_code o) q_user) 0) /\
              is_sm o = negb (Z.eqb (Z.land (owner_code o) q_sm) 0)) /\
-  (src_send_counts = true /\ src_send_links_tail = true /\ src_send_piggyback = true) /\
+  (src_send_lib_before_sm = true /\ src_send_counts = true /\ src_send_links_tail = true /\ src_send_piggyback = true) /\
   (src_loop_write = true /\ src_loop_written_accumulates = true /\ src_loop_wip_then_stop = true /\
    src_loop_counts = true /\ src_loop_moves_to_smq = true /\ src_loop_head_prev_cleared = true) /\
   (src_len_body = true /\ src_unlink_body = true /\ src_drop_single_wip = true /\ src_drop_choice = true /\
